@@ -80,6 +80,38 @@ func (c *RecCase) Exec(t *eng.T) {
 	}
 }
 
+// OptCase: an imported macro behaves like the same macro defined locally also under the set's whitespace options.
+type OptCase struct {
+	Body string `json:"body"`
+	Opts int    `json:"opts"` // bit 0 TrimBlocks, bit 1 LStripBlocks (on the set)
+}
+
+func (c *OptCase) ID() string { return fmt.Sprintf("macro body %q under options %02b", c.Body, c.Opts) }
+
+func (c *OptCase) Exec(t *eng.T) {
+	t.Nontrivial()
+	def := func(export string) string { return "{% macro m(a) " + export + "%}" + c.Body + "{% endmacro %}" }
+	routes := []map[string]string{
+		{"/main": def("") + "[{{ m(1) }}|{{ m(0) }}]"},
+		{"/main": `{% import "lib" m %}[{{ m(1) }}|{{ m(0) }}]`, "/lib": def("export ")},
+		{"/main": `{% import "lib" m as n %}[{{ n(1) }}|{{ n(0) }}]`, "/lib": "lib text\n" + def("export ")},
+	}
+	var outs []string
+	for _, files := range routes {
+		set, _ := px.NewSet(files)
+		set.Options.TrimBlocks, set.Options.LStripBlocks = c.Opts&1 != 0, c.Opts&2 != 0
+		tpl, o := px.CompileFile(set, "/main")
+		if tpl != nil {
+			o = px.Exec(tpl, pongo2.Context{})
+		}
+		outs = append(outs, o.String())
+	}
+	t.Outcome(outs[0])
+	if outs[1] != outs[0] || outs[2] != outs[0] {
+		t.Fail("macro-options:imported-differs", "%s: defined locally it renders %s, imported %s, imported under an alias %s", c.ID(), outs[0], outs[1], outs[2])
+	}
+}
+
 // DepthCase: a recursion WITH a base case at depth K renders (or is refused) alike whether the macro is local,
 // imported or imported under an alias; far below the limit it renders, far above it is refused.
 type DepthCase struct {
@@ -285,6 +317,12 @@ func run(r *eng.Runner) {
 		}
 	}
 
+	r.Group("whitespace-options", "c13.opt", "macro bodies with line breaks and blanks around block tags x the 4 TrimBlocks/LStripBlocks settings of the set: local, imported and aliased definitions render the same")
+	for _, body := range []string{"\n  {% if a %}\nyes\n  {% endif %}\n", "x\n{% for i in \"ab\" %}\n {{ i }}\n\t{% endfor %}\ny", " {% set z = a %} \n{{ z }}", "{% if a %}\n\nA{% else %}\nB  {% endif %}", "plain {{ a }}\n"} {
+		for opts := 0; opts < 4; opts++ {
+			r.Do(&OptCase{Body: body, Opts: opts})
+		}
+	}
 	r.Group("depth-boundary", "c13.depth", "a recursive macro with a base case at depth K for every K in 990..1010 (and 10, 500, 900, 1100, 2000), direct and mutual: local, imported and aliased definitions agree on rendering / refusing, each K in a fresh sub-process")
 	for _, shape := range []string{"direct", "mutual"} {
 		ks := []int{10, 500, 900, 1100, 2000}
@@ -384,6 +422,7 @@ func run(r *eng.Runner) {
 
 func init() {
 	eng.RegisterCase("c13.depth", func() eng.Case { return &DepthCase{} })
+	eng.RegisterCase("c13.opt", func() eng.Case { return &OptCase{} })
 	eng.RegisterCase("c13.rec", func() eng.Case { return &RecCase{} })
 	eng.Register(&eng.Check{
 		ID:    "C13",
